@@ -496,3 +496,45 @@ def m9(ctx):
 
 
 RULES.append(m9)
+
+
+@rule("M10", doc="every candidate (e-node, variant) is matched against its own copy of the incoming state: the slot bindings a candidate tries are made in a State cloned inside that candidate's iteration — never in the caller's state, where a rejected candidate would leave half-made bindings behind for the next one")
+def m10(ctx):
+    crate = ctx.lib()
+    n = 0
+    for b0 in crate.fns():
+        if not (b0.file or "").endswith("rewrite/ematch.rs") or b0.kind == "Closure":
+            continue
+        if b0.id in mir.default_inline_policy(crate) and b0.name not in MATCHER_ANCHORS and crate.aliases.get(b0.id) not in MATCHER_ANCHORS:
+            continue            # a private single-use helper (the binding loop extracted): seen inside its caller
+        b = mir.inline_view(crate, b0, keep=MATCHER_ANCHORS)
+        tis = [c for c in b.calls if c.callee and c.callee.name == "try_insert_compatible_slotmap_bij" and not b.blocks[c.bb]["cleanup"]]
+        if not tis:
+            continue
+        vloops = [l for l in C.iterator_loops(b) if role_mentions_call(l[1], "get_group_compatible_weak_variants") or role_mentions_call(l[1], "enodes_applied")]
+        for c in tis:
+            mp = [a for a in c.args if mir.op_place(a) is not None and b.local_ty(mir.op_place(a)["l"]).startswith("&mut")]
+            if not mp:
+                continue
+            n += 1
+            r = b.role_of_operand(mp[0])
+            while isinstance(r, tuple) and r[0] == "call" and r[1] in ("deref", "deref_mut", "borrow", "borrow_mut", "as_mut", "as_ref") and r[3]:
+                r = r[3][0]
+            base = r[1] if isinstance(r, tuple) and r[0] == "field" else r
+            while isinstance(base, tuple) and base[0] == "call" and base[1] in ("deref", "deref_mut", "borrow", "borrow_mut", "as_mut", "as_ref") and base[3]:
+                base = base[3][0]
+            own_copy = isinstance(base, tuple) and base[0] == "call" and base[1] == "clone"
+            inside = False
+            if own_copy and vloops:
+                inner = [l for l in vloops if c.bb in b.reach(l[3], avoid=l[2])]
+                # the clone is made inside the innermost candidate loop around the binding
+                inside = bool(inner) and any(base[4] in b.reach(l[3], avoid=l[2]) for l in inner)
+            elif own_copy:
+                inside = True
+            ctx.check(own_copy and inside, "candidate-own-state:" + C.fkey(b0), "slot bindings of a candidate are made in a state cloned for that candidate",
+                      "%s binds a candidate's slots in %s, which is shared between candidates (not a State cloned inside the candidate loop): when a candidate is rejected half-way its bindings stay behind, a later e-node / variant of the same class is matched under them and a fitting one is rejected — the rule misses a represented instance (which one depends on the iteration order of the class's nodes)" % (C.short(b0.id), role_str(r)[:60]),
+                      where_of(b, c.bb))
+    ctx.floor("slot-binding sites in the node matcher", n, 1)
+
+
+RULES.append(m10)
